@@ -10,7 +10,7 @@ INR = f'({TAKE} and {A_} <= a and a < {A_} + {NB})'
 
 # one line's contribution to the address -> byte map
 MEMMAP_BODY = dict(
-    where='loop[@for lobj in compilable_line_obs#2].body', locals={'lobj': 'LineObject', 'memory': 'dict[int,int]'},
+    where='loop[@for lobj in compilable_line_obs#2|4].body', locals={'lobj': 'LineObject', 'memory': 'dict[int,int]'},
     requires=['addressable(lobj)', 'self._verbose <= 2'],
     ensures=[
         # exactly the addresses of this line's bytes are added -- and only if the line is an unmuted byte line
@@ -37,7 +37,7 @@ def cell(memory, a, fill):
 
 START = 'self._binary_start'
 WINDOW = dict(
-    where='span(@for lobj in compilable_line_obs#2:@for addr in range(self._binary_start#0]', locals={'memory': 'dict[int,int]', 'bytecode': 'bytearray', 'last_address': 'int', 'addr': 'int'},
+    where='span(@for lobj in compilable_line_obs#2|4:@for addr in range(self._binary_start#0|5]', locals={'memory': 'dict[int,int]', 'bytecode': 'bytearray', 'last_address': 'int', 'addr': 'int'},
     requires=['len(bytecode) == 0', '0 <= self._binary_fill_value and self._binary_fill_value <= 255',
               'forall(lambda a: implies(a in memory, 0 <= mapping(memory)[a] and mapping(memory)[a] <= 255))'],
     ensures=[
@@ -59,7 +59,7 @@ WINDOW_INV = dict(
 
 contract(ENG, props=['C03', 'C16'], name='engine', blocks_only=True,
          blocks={'memmap_line': MEMMAP_BODY, 'window': WINDOW},
-         loops={'@for lobj in compilable_line_obs#2/0': MEMMAP_INNER, '@for addr in range(self._binary_start#0': WINDOW_INV})
+         loops={'@for lobj in compilable_line_obs#2/0|4.0': MEMMAP_INNER, '@for addr in range(self._binary_start#0|5': WINDOW_INV})
 
 # ---- the window parameters reach the engine as given on the command line ------------------------------------------
 AM = 'bespokeasm.assembler.model:AssemblerModel.__init__'
